@@ -83,8 +83,9 @@ class S:
 
 
 class A:
-    def __init__(self, name, stype, use='optional', fixed=None, ns=None):
+    def __init__(self, name, stype, use='optional', fixed=None, ns=None, inheritable=False):
         self.name, self.stype, self.use, self.fixed, self.ns = name, stype, use, fixed, ns
+        self.inheritable = inheritable               # XSD 1.1 only
         self.tag = '{%s}%s' % (ns, name) if ns else name
 
 
@@ -131,9 +132,10 @@ def _specs():
     out = []
 
     def add(sid, root, target=None, others=(), identity=None, spellings=('prefixed',), note='', globals_=(),
-            types=''):
+            types='', version='1.0'):
         out.append({'id': sid, 'root': root, 'target': target, 'others': tuple(others), 'identity': identity,
-                    'spellings': spellings, 'note': note, 'globals': tuple(globals_), 'types': types})
+                    'spellings': spellings, 'note': note, 'globals': tuple(globals_), 'types': types,
+                    'version': version})
 
     # G1: three levels of nested anonymous complex types
     add('G01-nested3', E('r', CT(seq(
@@ -184,6 +186,12 @@ def _specs():
     add('G13-unions', E('r', CT(seq(E('a', USZ), E('b', USZ, 0, 1), E('w', UW), E('c', PCODE, 0, 1),
                                     E('l', PLIST, 0, 1), E('w2', UW, 0, 1)), [A('u', USZ)])),
         types=UNION_XSD, note='unions and lists restricted by patterns')
+    # G14 (XSD 1.1 only): inheritable attributes on a simple-content element, on its element-only parent and on
+    # the root (three nested scopes); every such attribute is present and absent in the instances
+    m = E('m', CT(INT1, [A('unit', INT1, inheritable=True), A('n', INT1)]), 1, 2)
+    g = E('g', CT(seq(m, E('note', INT1, 0, 1)), [A('lang', INT1, inheritable=True)]))
+    add('G14-inheritable', E('r', CT(seq(g, E('z', INT1, 0, 1)), [A('top', INT1, inheritable=True)])), version='1.1',
+        note='XSD 1.1 inheritable attributes, nested scopes')
     return out
 
 
@@ -206,9 +214,10 @@ def _render_type(t, target):
     if isinstance(t, S):
         return None
     parts = ['<xs:complexType%s>' % (' mixed="true"' if t.mixed else '')]
-    attrs = ''.join('<xs:attribute name="%s" type="%s"%s%s%s/>' % (
+    attrs = ''.join('<xs:attribute name="%s" type="%s"%s%s%s%s/>' % (
         a.name, SIMPLE[a.stype.name][0], ' form="qualified"' if a.ns else '',
-        ' use="required"' if a.use == 'required' else '', ' fixed="%s"' % a.fixed if a.fixed is not None else '')
+        ' use="required"' if a.use == 'required' else '', ' fixed="%s"' % a.fixed if a.fixed is not None else '',
+        ' inheritable="true"' if a.inheritable else '')
         for a in t.attrs)
     if isinstance(t.content, S):
         parts.append('<xs:simpleContent><xs:extension base="%s">%s</xs:extension></xs:simpleContent>'
